@@ -1,7 +1,7 @@
 (* C04 — proofs, part 3: the decision procedure is sound for the Props, and the main theorem:
    the property holds of every observation of every history of the model. *)
 From Coq Require Import List ZArith Bool Lia.
-From Verif Require Import C04.Model C04.Spec C04.Proofs C04.Proofs_state C04.Proofs_decl.
+From Verif Require Import C04.Model C04.Spec C04.Proofs C04.Proofs_state C04.Proofs_decl C04.Proofs_rec.
 Import ListNotations.
 Open Scope Z_scope.
 
@@ -83,21 +83,24 @@ Proof.
     first [apply check_event_sound | apply check_permit_sound | apply check_rollback_sound].
 Qed.
 
-Theorem prop_walk_sound h : forall ops l tainted ds prev,
-  prop_walk h tainted ds prev ops l = 0 -> holds_walk h tainted ds prev ops l.
+Theorem prop_walk_sound h : forall ops l tainted ds rs prev,
+  prop_walk h tainted ds rs prev ops l = 0 -> holds_walk h tainted ds rs prev ops l.
 Proof.
-  induction ops as [|o ops IH]; intros l tainted ds prev; destruct l as [|[r cur] l]; simpl;
+  induction ops as [|o ops IH]; intros l tainted ds rs prev; destruct l as [|[r cur] l]; simpl;
     try discriminate; [tauto|].
   unfold step_code.
   set (t' := tainted || permit_guard_viol h prev o).
   set (ds' := decl_step h ds o).
+  set (rs' := rec_step h prev ds rs o).
   destruct (negb t' && negb (all_part_okb cur)) eqn:E1; [discriminate|].
   destruct (decl_matchb ds' cur) eqn:E8; cbn [negb]; [|discriminate].
+  destruct (rec_matchb rs' cur) eqn:E9; cbn [negb]; [|discriminate].
   destruct (check_op h (negb t') prev o r cur =? 0) eqn:E2.
-  - apply Z.eqb_eq in E2. intros H. split; [|split; [|split]].
+  - apply Z.eqb_eq in E2. intros H. split; [|split; [|split; [|split]]].
     + intros Ht. rewrite Ht in E1. cbn [negb andb] in E1. apply negb_false_iff in E1.
       apply all_part_okb_spec. exact E1.
     + apply decl_matchb_sound. exact E8.
+    + apply rec_matchb_sound. exact E9.
     + apply check_op_sound. exact E2.
     + apply IH. exact H.
   - intros H. rewrite H in E2. discriminate.
@@ -108,7 +111,8 @@ Proof. apply prop_walk_sound. Qed.
 
 (* ---------- the main theorem ---------- *)
 Lemma prop_walk_run h : forall ops s tainted,
-  (tainted = false -> all_part s) -> prop_walk h tainted (proj s) (view s) ops (run_from h s ops) = 0.
+  (tainted = false -> all_part s) ->
+  prop_walk h tainted (proj s) (rs_of s) (view s) ops (run_from h s ops) = 0.
 Proof.
   induction ops as [|o ops IH]; intros s tainted Hinv; simpl; [reflexivity|].
   destruct (step h s o) as [s' r] eqn:Es.
@@ -120,9 +124,10 @@ Proof.
     rewrite permit_guard_view in Hg. apply negb_false_iff in Hg.
     rewrite Es'. apply all_part_step; [apply Hinv; exact Ht | exact Hg]. }
   assert (Hds : decl_step h (proj s) o = proj s') by (rewrite Es'; symmetry; apply proj_step).
-  rewrite Hds.
-  assert (Hc : step_code h t' (proj s') (view s) o r (view s') = 0).
-  { unfold step_code. rewrite decl_matchb_proj. cbn [negb]. destruct t' eqn:Et; cbn [negb andb].
+  assert (Hrs : rec_step h (view s) (proj s) (rs_of s) o = rs_of s') by (rewrite Es'; symmetry; apply rs_step).
+  rewrite Hds, Hrs.
+  assert (Hc : step_code h t' (proj s') (rs_of s') (view s) o r (view s') = 0).
+  { unfold step_code. rewrite decl_matchb_proj, rec_matchb_rs_of. cbn [negb]. destruct t' eqn:Et; cbn [negb andb].
     - rewrite Es', Er. apply check_op_ok. discriminate.
     - assert (Hp : all_part_okb (view s') = true).
       { apply all_part_okb_spec. apply all_part_view. apply Hinv'. reflexivity. }
